@@ -336,7 +336,7 @@ Definition dread (lim : option Z) (zl tl : Z) (cs : list chunk) (alt : option (Z
   | Some 0 => (RcOk, d)
   | _ =>
     if s_fixed st || s_eof st || (match s_err st with Some _ => true | None => false end) || (d_skip d <=? 0) then
-      let '(x, st') := sread lim zl tl st want in (x, mkD (if s_fixed st then d_skip d else if d_skip d <=? 0 then 0 else d_skip d) st')
+      let '(x, st') := sread lim zl tl st want in (x, mkD (d_skip d) st')
     else
       let n := match want with Some k => Z.min k (d_skip d) | None => d_skip d end in
       match adv lim (s_pos st) n with
@@ -473,7 +473,7 @@ Definition drain (c : cfg) (r : req) (d : dstream) : bool * dstream :=
 (* the iteration up to the handler call *)
 Inductive pre :=
 | PStop (evs : list event)                                (* the loop breaks before the handler *)
-| PRun (evs : list event) (pos : Z) (st : option dstream).  (* the handler runs: reader position, body stream *)
+| PRun (evs : list event) (pos : Z) (st : option sst).    (* the handler runs: reader position, body stream (before a pooled object is attached) *)
 
 Definition expect_verdict (c : cfg) (r : req) : option Z :=   (* Some status: the expectation is rejected with it *)
   if r_expect r then
@@ -507,17 +507,18 @@ Definition before_handler (c : cfg) (r : req) : pre :=
     end
   end.
 
-(* the handler call and the rest of the iteration; returns the events and Some pos (keep-alive,
-   next head parse at pos, relative to the end of this head) or None (connection finished) *)
-Definition after_handler (c : cfg) (r : req) (pos1 : Z) (st1 : option sst) : list event * option Z :=
+(* the handler call and the rest of the iteration; returns the events, Some pos (keep-alive,
+   next head parse at pos, relative to the end of this head) or None (connection finished), and the
+   stream as it is when its object goes back to the pool *)
+Definition after_handler (c : cfg) (r : req) (pos1 : Z) (st1 : option dstream) : list event * option Z * option dstream :=
   let close0 := c_nokeepalive c || r_close r in
   (* s.Handler(ctx) *)
   let '(nread, hrc, st2) :=
     match st1 with
-    | Some st => let '(n, x, st') := run_reads r st in (n, x, Some st')
+    | Some d => let '(n, x, d') := run_reads r d in (n, x, Some d')
     | None => (0, RcOk, None)
     end in
-  let pos2 := match st2 with Some st => s_pos st | None => pos1 end in
+  let pos2 := match st2 with Some d => s_pos (d_st d) | None => pos1 end in
   (* closeBodyStream (CloseBodyStream, ResetBody, SetBody...) detaches the stream and records in
      req.bodyStreamUnread whether the body had been read to its end; a timeout swaps the ctx *)
   let attached :=
@@ -528,34 +529,50 @@ Definition after_handler (c : cfg) (r : req) (pos1 : Z) (st1 : option sst) : lis
     end in
   let unread :=
     match r_fin r, st2 with
-    | FinDetach, Some st => negb (drained st)
+    | FinDetach, Some d => negb (drained (d_st d))
     | _, _ => false
     end in
   let timedout := match r_fin r with FinTimeout => true | _ => false end in
   let status := match r_fin r with FinTimeout => statusRequestTimeout | _ => statusOK end in
   let hijack := match r_fin r with FinHijack => true | _ => false end in
   let had_stream := match st1 with Some _ => true | None => false end in
-  let '(close1, pos3) :=
+  let '(close1, pos3, st3) :=
     if had_stream && negb hijack && (timedout || unread) then
       (* the rest of the body cannot be skipped: the connection must not be reused *)
-      (true, pos2)
+      (true, pos2, st2)
     else
       (* the drain *)
       match attached with
-      | Some st => if hijack then (close0, pos2)
-                   else let '(cl, st') := drain c r st in (close0 || cl, s_pos st')
-      | None => (close0, pos2)
+      | Some d => if hijack then (close0, pos2, st2)
+                  else let '(cl, d') := drain c r d in (close0 || cl, s_pos (d_st d'), Some d')
+      | None => (close0, pos2, st2)
       end in
   let close2 := close1 || match r_fin r with FinConnClose => true | _ => false end in
   let evs := [EDispatch (r_id r) nread hrc; EResp status close2] in
-  if close2 then (evs, None)
-  else if hijack then (evs ++ [EHijack], None)
-  else (evs, Some pos3).
+  if close2 then (evs, None, st3)
+  else if hijack then (evs ++ [EHijack], None, st3)
+  else (evs, Some pos3, st3).
 
-Definition serve_one (c : cfg) (r : req) : list event * option Z :=
+(* One iteration over the requestStream pool.  `rel` is what happens to the object's fields when it
+   goes back to the pool (releaseRequestStream in the real code): the stream is released by
+   closeBodyStream, at the end of the iteration, or when the ctx is reset after the connection or the
+   hijack handler ended; after a handler timeout the ctx, and the stream with it, is never pooled again. *)
+Definition serve_one (rel : rsobj -> rsobj) (c : cfg) (r : req) (p : rspool) : list event * option Z * rspool :=
   match before_handler c r with
-  | PStop evs => (evs, None)
-  | PRun evs pos st => let '(evs2, nxt) := after_handler c r pos st in (evs ++ evs2, nxt)
+  | PStop evs => (evs, None, p)
+  | PRun evs pos st =>
+      let '(d, p1) :=
+        match st with
+        | Some s => let '(o, p1) := rs_acquire p (r_pick r) in (Some (stream_on o s), p1)    (* acquireRequestStream *)
+        | None => (None, p)
+        end in
+      let '(evs2, nxt, dfin) := after_handler c r pos d in
+      let p2 := match dfin, r_fin r with
+                | Some _, FinTimeout => p1
+                | Some df, _ => rel (obj_of df) :: p1
+                | None, _ => p1
+                end in
+      (evs ++ evs2, nxt, p2)
   end.
 
 (* ------------------------------------------------------------------------------------ *)
@@ -572,18 +589,28 @@ Definition wire_len (f : framing) : Z :=
 
 Definition truncated (r : req) : bool := match r_lim r with Some _ => true | None => false end.
 
-Fixpoint serve (c : cfg) (rs : list req) (base : Z) : list event :=
+Fixpoint serve_p (rel : rsobj -> rsobj) (c : cfg) (rs : list req) (base : Z) (p : rspool) : list event * rspool :=
   match rs with
-  | [] => [EClose]                                    (* br.Peek(1): io.EOF *)
+  | [] => ([EClose], p)                               (* br.Peek(1): io.EOF *)
   | r :: rest =>
-      EParse base ::
-      (let '(evs, nxt) := serve_one c r in
-       evs ++
-       match nxt with
-       | None => [EClose]
-       | Some off =>
-           if at_end (r_lim r) off then [EClose]      (* br.Peek(1): io.EOF; nothing is left to parse *)
-           else if negb (truncated r) && (off =? wire_len (r_fr r)) then serve c rest (base + r_head r + off)
-           else [EDesync (r_id r) off (base + r_head r + off)]
-       end)
+      let '(evs, nxt, p1) := serve_one rel c r p in
+      let '(tail, p2) :=
+        match nxt with
+        | None => ([EClose], p1)
+        | Some off =>
+            if at_end (r_lim r) off then ([EClose], p1)   (* br.Peek(1): io.EOF; nothing is left to parse *)
+            else if negb (truncated r) && (off =? wire_len (r_fr r)) then serve_p rel c rest (base + r_head r + off) p1
+            else ([EDesync (r_id r) off (base + r_head r + off)], p1)
+        end in
+      (EParse base :: evs ++ tail, p2)
   end.
+
+(* several connections one after the other over the same pool *)
+Fixpoint serve_conns (rel : rsobj -> rsobj) (c : cfg) (conns : list (list req)) (p : rspool) : list (list event) :=
+  match conns with
+  | [] => []
+  | rs :: more => let '(tr, p1) := serve_p rel c rs 0 p in tr :: serve_conns rel c more p1
+  end.
+
+(* one connection of a server whose pool is empty *)
+Definition serve (c : cfg) (rs : list req) (base : Z) : list event := fst (serve_p releaseRequestStream c rs base []).
